@@ -69,6 +69,8 @@ class Exec:
         self.fresh_count = [0]
         self.const_fill = False  # read `[c] * len(xs)` as `[c for _ in xs]` (off where the slots are then written by index in a loop)
         self.callhooks = {}  # function value -> f(args, kwargs) -> value or None: semantics the caller gives to an external helper
+        self.loops = []  # one record per probed loop: iterable, locals before, and how each path of one generic iteration ends
+        self.loop_sink = None
         self.probes = []  # (line, path conditions, iterable, locals after one generic iteration) of loops that end a path
         self.watch = {}  # function / method name -> list of (path conditions, args, kwargs) of every call met
         self.funcs = {n.name: n for n in tree.body if isinstance(n, ast.FunctionDef)}
@@ -501,6 +503,8 @@ class Exec:
         sub.watch = self.watch
         sub.attrs = self.attrs
         sub.probes = self.probes
+        sub.loops = self.loops
+        sub.loop_sink = self.loop_sink
         sub.callhooks = self.callhooks
         sub.const_fill = self.const_fill
         sub.fresh, sub.fresh_count = self.fresh, self.fresh_count
@@ -625,6 +629,12 @@ class Exec:
             return self.map_loop(s, it, env, cont)
         if isinstance(s, (ast.Import, ast.ImportFrom)):
             return cont(env)
+        if isinstance(s, (ast.Break, ast.Continue)):
+            if self.loop_sink is None:
+                self.fail(s, "break / continue outside a probed loop")
+            kind = "break" if isinstance(s, ast.Break) else "continue"
+            self.loop_sink(kind, env)
+            return (kind,)
         if isinstance(s, ast.Try):
             # exceptions are not modelled: the body (then else / finally) runs; handlers are what happens when it raises
             return self.block(list(s.body) + list(s.orelse) + list(s.finalbody) + rest, env, k)
@@ -662,8 +672,12 @@ class Exec:
             try:
                 e3 = self._fold_loop_env(s, it, env)
             except Untranslatable:
-                self.probe_loop(s, it, env)
-                raise
+                # neither a map nor a fold: one generic iteration is recorded, and execution goes on after the loop with
+                # every local the loop assigns unknown (("after", name, depth)): nothing is assumed about the loop
+                d, assigned = self.probe_loop(s, it, env)
+                e3 = dict(env)
+                for n in assigned:
+                    e3[n] = ("after", n, d)
         return cont(e3)
 
     def probe_loop(self, s, it, env):
@@ -688,18 +702,27 @@ class Exec:
                     e2[n] = ("havoc", n, d)
             it2 = self.bind_symbolic_element(s.target, it, e2, s)
             out = {}
+            paths = []  # (how the iteration ends: "end" | "break" | "continue", path conditions, locals)
+            base = len(self.known)
 
             def done(e3):
                 out.update(e3)
+                paths.append(("end", tuple(self.known[base:]), dict(e3)))
                 return ("ret", NONE)
 
+            saved = self.loop_sink
+            self.loop_sink = lambda kind, e3: paths.append((kind, tuple(self.known[base:]), dict(e3)))
             try:
                 self.block(list(s.body), e2, done)
             except Untranslatable:
                 pass
+            finally:
+                self.loop_sink = saved
             self.probes.append((getattr(s, "lineno", None), tuple(self.known), it2, out))
+            self.loops.append({"line": getattr(s, "lineno", None), "known": tuple(self.known), "iter": it2, "before": dict(env), "paths": paths, "depth": d, "assigned": sorted(assigned)})
         finally:
             self.bound -= 1
+        return d, assigned
 
     def _map_loop_env(self, s, it, env):
         if not s.body:
@@ -833,6 +856,7 @@ def watch_calls(tree, path, qualname, names, opaque=(), inline=None):
     except Untranslatable as e:
         stopped = e
     ex.watch["$probes"] = ex.probes
+    ex.watch["$loops"] = ex.loops
     return ex.watch, stopped
 
 
